@@ -230,6 +230,20 @@ CHECKS = {
         note='Unbounded lexical domains are sampled (exploration strength) and judged through tableschema casts of the recorded descriptors; the quoting/dialect layer is model-checked. Known findings: JSON needs alphabetical field order to load back; CR LF inside a cell loads as LF.',
         technique='TLA+ byte-level codec model-checked exhaustively; real files decoded by the TLA+ reader in TLC; typed round trips replayed over a configuration matrix',
         design='6/C03', specs=['Codec.tla', 'MC_Codec.tla', 'CodecTrace.tla']),
+    'C13': dict(
+        level='model_checking',
+        text='Load.tla (on Codec.tla) defines load of a delimited file: header row -> field names (RenameDuplicateHeaders transcribed; '
+             'reject when duplicates are not to be renamed; case sensitive or not), one row per data line in order, cell text preserved '
+             'apart from Strip, limit_rows = the first n rows; TLC checks NamesUnique, OneRowPerLine, TextPreserved, RejectedIffDup on '
+             '17 571 cases and exports each WITH the file bytes (the specification\'s own encoding of the table). Each file (quick: 4000) is '
+             'written and loaded for real under string / default strategies and the name option: names, row count, order and cell text must '
+             'be LoadDef\'s. ProcValidate.tla policy cases run through load(cast_strategy=schema, on_error=raise/drop/ignore/clear, a '
+             'one-row inference sample, limit_rows). 300/6000 random files from an independent writer (python csv, unicode, LF / CR LF) '
+             'are loaded and TLC applies the spec reader to the bytes and compares with what load() returned (LoadTrace.tla). Resource '
+             'selection from a data package and a (descriptor, iterators) pair for every selector form.',
+        note='Known finding C13-dialect-is-sniffed (load guesses the CSV dialect) is matched only when csv.Sniffer really returns a non-default dialect AND load() equals the decode under that dialect. Type inference is tableschema\'s and is not modelled.',
+        technique='TLA+ definition of load over a byte-level codec, model-checked; spec-encoded files replayed into load(); random real loads judged by the TLA+ reader in TLC',
+        design='6/C13', specs=['Load.tla', 'Codec.tla', 'LoadTrace.tla', 'ProcValidate.tla']),
 }
 
 NOT_YET = 'check not built yet (build in progress, see DESIGN.md section 10)'
